@@ -98,8 +98,8 @@ func propC13(c *Ctx, r *Report) {
 						return cUint(123456)
 					}
 					sc := &Scenario{
-						Params:   map[string]AVal{"currentHeight": hconst(h), "rates": nonNil},
-						Calls:    map[string]AVal{"fat2.(*Transaction).IsConversion": cBool(true)},
+						Params:   map[string]AVal{"type:uint32": hconst(h), "type:map[fat2.PTicker]uint64#0": nonNil},
+						Calls:    map[string]AVal{"fat2.Transaction.IsConversion": cBool(true)},
 						Paths:    map[string]AVal{"fat2.Transaction.Conversion": cInt(t), "fat2.TypedAddressAmountTuple.Type": cInt(in)},
 						Lookups:  map[string]AVal{"rates[fat2.TypedAddressAmountTuple.Type]": rate(p.zin), "rates[fat2.Transaction.Conversion]": rate(p.zout)},
 						Lens:     map[string]AVal{"rates": cInt(62)},
@@ -107,7 +107,7 @@ func propC13(c *Ctx, r *Report) {
 					}
 					st := newSCCP(c, sc).run(atb, nil, 0)
 					res.n++
-					le := loopOver(st, "txBatch.Transactions", 1)
+					le := loopOver(st, "fat2.TransactionBatch.Transactions", 1)
 					if !le.Found {
 						res.found = false
 						results[t] = res
@@ -162,16 +162,18 @@ func propC13(c *Ctx, r *Report) {
 	// height plumbing: the height checked is the executing block's height (both executors)
 	r.rule("C13/height-plumbing", 2, "admission is decided with the executing block's height")
 	hold := c.fn("node.Pegnetd.ApplyTransactionBatchesInHolding")
-	for _, ci := range findCalls(hold, "node.(*Pegnetd).applyTransactionBatch") {
+	for _, ci := range findCalls(hold, "node.Pegnetd.applyTransactionBatch") {
 		a := ci.Common().Args
-		r.check(valuePath(a[5]) == "currentHeight", "C13/height-plumbing", "holding executor passes currentHeight", c.ipos(ci), "", "applyTransactionBatch is given "+valuePath(a[5])+" instead of the executing height")
+		r.check(c.isExecHeight(a[5]), "C13/height-plumbing", "holding executor passes the executing height", c.ipos(ci), "", "applyTransactionBatch is given "+c.describeOrigin(a[5])+" instead of the executing height")
 	}
-	for _, ci := range findCalls(c.fn("node.Pegnetd.SyncBlock"), "node.(*Pegnetd).ApplyTransactionBatchesInHolding") {
+	for _, ci := range findCalls(c.fn("node.Pegnetd.SyncBlock"), "node.Pegnetd.ApplyTransactionBatchesInHolding") {
 		a := ci.Common().Args
-		r.check(valuePath(a[3]) == "height", "C13/height-plumbing", "SyncBlock passes its height to the holding executor", c.ipos(ci), "", "holding executor is given "+valuePath(a[3]))
+		r.check(c.isExecHeight(a[3]), "C13/height-plumbing", "SyncBlock passes its height to the holding executor", c.ipos(ci), "", "holding executor is given "+c.describeOrigin(a[3]))
 	}
 
 	// PEG destination invalid from 2.0 (holding path)
+	// averages handed to Convert are not themselves gated by an era (shared with C07)
+	ruleAveragesEraFree(c, r, "C13/averages-era-free")
 	r.rule("C13/peg-disabled", 3, "conversions into PEG are rejected from PegNet 2.0 on")
 	var bad []string
 	for _, h := range e.reps {
@@ -182,7 +184,7 @@ func propC13(c *Ctx, r *Report) {
 			} else {
 				calls["ValidatePegTx"] = nilVal
 			}
-			sc := &Scenario{Params: map[string]AVal{"currentHeight": hconst(h)}, Calls: calls, MaxDepth: 0}
+			sc := &Scenario{Params: map[string]AVal{"type:uint32": hconst(h)}, Calls: calls, MaxDepth: 0}
 			t := newSCCP(c, sc).analyse(hold, nil)
 			r.Scen++
 			live := t.Live("ValidatePegTx")
@@ -223,7 +225,7 @@ func propC13(c *Ctx, r *Report) {
 		sc := &Scenario{Paths: map[string]AVal{"fat2.Transaction.Conversion": cInt(dest)}, Calls: map[string]AVal{"ValidData": nilVal}, MaxDepth: 0}
 		st := newSCCP(c, sc).run(vp, nil, 0)
 		r.Scen++
-		le := loopOver(st, "t.Transactions", 1)
+		le := loopOver(st, "fat2.TransactionBatch.Transactions", 1)
 		want := "next"
 		if dest == tick["PEG"] {
 			want = "err:fresh"
@@ -243,7 +245,7 @@ func propC13(c *Ctx, r *Report) {
 				}
 				return cUint(1000)
 			}
-			sc := &Scenario{Params: map[string]AVal{"height": hconst(h), "amount": cInt(5), "fromRate": v("fromRate"), "fromAvg": v("fromAvg"), "toRate": v("toRate"), "toAvg": v("toAvg")}, MaxDepth: 0}
+			sc := &Scenario{Params: map[string]AVal{"type:uint32": hconst(h), "type:int64": cInt(5), "type:uint64#0": v("fromRate"), "type:uint64#1": v("fromAvg"), "type:uint64#2": v("toRate"), "type:uint64#3": v("toAvg")}, MaxDepth: 0}
 			st := newSCCP(c, sc).run(cv, nil, 0)
 			r.Scen++
 			got := strings.Join(errorReturns(st), "|")
@@ -284,7 +286,7 @@ func rejectCodes(c *Ctx, r *Report, rule string) map[string]int64 {
 	sort.Strings(names)
 	for _, n := range names {
 		g := c.global("pegnet", n)
-		sc := &Scenario{Params: map[string]AVal{"err": {K: ASentinel, G: g}}, MaxDepth: 0}
+		sc := &Scenario{Params: map[string]AVal{"type:error": {K: ASentinel, G: g}}, MaxDepth: 0}
 		t := newSCCP(c, sc).analyse(irt, nil)
 		r.Scen++
 		rets := t.Returns()
@@ -312,7 +314,7 @@ func rejectCodes(c *Ctx, r *Report, rule string) map[string]int64 {
 		c0   string
 		e    string
 	}{{"nil", nilVal, "1", "nil"}, {"other error", fresh, "0", "err:fresh"}} {
-		sc := &Scenario{Params: map[string]AVal{"err": v.in}, MaxDepth: 0}
+		sc := &Scenario{Params: map[string]AVal{"type:error": v.in}, MaxDepth: 0}
 		t := newSCCP(c, sc).analyse(irt, nil)
 		r.Scen++
 		rets := t.Returns()
